@@ -103,3 +103,60 @@ class CollectionAddCds:
                      or (self.location.parts[1].start <= cds.location.start
                          and cds.location.end <= self.location.parts[1].end))),
     }
+
+
+# ---- Feature.__lt__: the order genes are kept in (and looked up by bisection) ---------------------------------
+from contracts.locations import (same_strand, bridges_spec, split_valid, first_break, hull_start, hull_end)  # noqa: E402
+
+FEATURE_FILE = "antismash/common/secmet/features/feature.py"
+SORTABLE = Rec("Feature", label="SortableFeature", location=OneOf(FL, CL(2, 3)), type=Str)
+
+
+@spec
+def pre_origin_parts(loc):
+    """the parts of an origin-spanning location that lie before the origin (at the end of the record)"""
+    k = first_break(loc)
+    if loc.parts[0].strand == -1:
+        return loc.parts[k:]
+    return loc.parts[:k]
+
+
+@spec
+def sort_position(feature):
+    """where the feature starts: a feature over the origin starts before it, at (its lowest pre-origin coordinate) - (record length)"""
+    loc = feature.location
+    if len(loc.parts) > 1 and bridges_spec(loc):
+        return hull_start(pre_origin_parts(loc)) - hull_end(pre_origin_parts(loc))
+    return min(p.start for p in loc.parts)
+
+
+@spec
+def total_length(feature):
+    return sum(p.end - p.start for p in feature.location.parts)
+
+
+@spec
+def sortable(feature):
+    loc = feature.location
+    return (wf(loc) and same_strand(loc)
+            and implies(len(loc.parts) > 1 and bridges_spec(loc), split_valid(loc)))
+
+
+@contract(f"{FEATURE_FILE}::Feature.__lt__", props=["C08"])
+class FeatureLessThan:
+    """Features sort by where they start - a feature over the origin by its lowest coordinate before the origin,
+    whatever the order its exons are listed in (reverse-strand genes list them descending) - then shortest first;
+    the source feature wins ties."""
+    params = {"self": SORTABLE, "other": SORTABLE}
+
+    def requires(self, other):
+        return sortable(self) and sortable(other)
+
+    ensures = {
+        "by-start-then-length": lambda self, other, result:
+            result == (sort_position(self) < sort_position(other)
+                       or (sort_position(self) == sort_position(other)
+                           and (total_length(self) < total_length(other)
+                                or (total_length(self) == total_length(other) and self.type == "source")))),
+    }
+    returns = Bool
